@@ -112,6 +112,9 @@ type State struct {
 	ForkDepth int
 	// Interleave: fork on context switches at lock operations (lock-granular schedule exploration)
 	Interleave bool
+	// GoOrder: at a go statement the new goroutine may run first (until it blocks) — a solver-visible choice; GoForks counts them
+	GoOrder bool
+	GoForks int
 	Switches   int
 	// ParStack: saved heaps for verifPar
 	nextTid int
